@@ -402,7 +402,7 @@ func concScripts(thorough bool) []*cscript {
 		{name: "tq-reads-vs-writes", cfg: "layer=tq,tq=3,pre=B", bg: "none", threads: [][]string{{"Get B", "GetSize B", "View B"}, {"Delete B", "Put B"}}, final: []string{"GetSize B", "View B"}, delta: 2},
 		{name: "tq-putmany-vs-delete", cfg: "layer=tq,tq=4,pre=C", bg: "none", threads: [][]string{{"PutMany C B", "Has C"}, {"Delete C", "Delete B"}}, final: []string{"Has B", "Has C"}, delta: 2},
 		{name: "bloom-build-delete", cfg: "layer=bloom,pre=A0+B", bg: "build", threads: [][]string{{"Delete B", "Has B"}, {"Put B"}}, final: []string{"Has B", "Has A1"}},
-		{name: "bloom-rebuild-delete", cfg: "layer=bloom,pre=A0+B", bg: "rebuild", threads: [][]string{{"Delete B", "Put C"}}, final: []string{"Has B", "Has C", "Has A0"}, delta: 2},
+		{name: "bloom-rebuild-delete", quick: true, cfg: "layer=bloom,pre=A0+B", bg: "rebuild", threads: [][]string{{"Delete B", "Put C"}}, final: []string{"Has B", "Has C", "Has A0"}, delta: 2},
 		{name: "bloom-rebuild-3thr", cfg: "layer=bloom,pre=B", bg: "rebuild", threads: [][]string{{"Put C"}, {"Has C", "Has B"}}, final: []string{"Has C", "Has B"}},
 		{name: "bloom-build+rebuild", cfg: "layer=bloom,pre=B", bg: "build+rebuild", threads: [][]string{{"Put A0", "Has A1"}}, final: []string{"Has A0", "Has B"}},
 		{name: "bloom-builderr+rebuild", cfg: "layer=bloom,pre=A0+B,build=err@1", bg: "build+rebuild", threads: [][]string{{"Put C", "Has B"}}, final: []string{"Has A0", "Has B", "Has C"}},
